@@ -208,7 +208,8 @@ pub enum Val {
     Unit,
     Int { signed: bool, bits: Vec<Bit> },
     /// unsigned interval, used only for the out-of-range class of an index parameter
-    Range { id: u32, lo: u128, hi: u128, w: u16 },
+    /// value = mul * r + add, where r is interval-valued input `id`; lo/hi are the value's current bounds
+    Range { id: u32, lo: u128, hi: u128, w: u16, mul: u128, add: u128 },
     Struct(Vec<Val>),
     Enum { variant: u32, fields: Vec<Val> },
     Array(Vec<Val>),
@@ -557,9 +558,13 @@ impl<'tcx> Interp<'tcx> {
                 ("sg", if *signed { "1".into() } else { "0".into() }),
                 ("m", esc(&Self::render_bits(st, bits))),
             ]),
-            Val::Range { id, w, .. } => {
+            Val::Range { id, w, mul, add, .. } => {
                 let (lo, hi) = st.ranges.get(*id as usize).copied().unwrap_or((0, 0));
-                obj(&[("r", arr(&[esc(&lo.to_string()), esc(&hi.to_string())])), ("w", w.to_string())])
+                obj(&[
+                    ("r", arr(&[esc(&lo.to_string()), esc(&hi.to_string())])),
+                    ("w", w.to_string()),
+                    ("lin", arr(&[esc(&mul.to_string()), esc(&add.to_string())])),
+                ])
             }
             Val::Struct(f) => obj(&[("s", arr(&f.iter().map(|x| self.render(st, x, depth + 1)).collect::<Vec<_>>()))]),
             Val::Enum { variant, fields } => obj(&[
@@ -642,12 +647,11 @@ impl<'tcx> Interp<'tcx> {
                             Some(i) => path.push(i as usize),
                             None => return PlaceRes::Unknown,
                         },
-                        Val::Range { id, .. } => {
+                        Val::Range { id, mul, add, .. } => {
                             let (lo, hi) = st.ranges[id as usize];
-                            if lo == hi {
-                                path.push(lo as usize)
-                            } else {
-                                return PlaceRes::Unknown;
+                            match (lo == hi, mul.checked_mul(lo).and_then(|x| x.checked_add(add))) {
+                                (true, Some(v)) => path.push(v as usize),
+                                _ => return PlaceRes::Unknown,
                             }
                         }
                         _ => return PlaceRes::Unknown,
@@ -806,12 +810,20 @@ impl<'tcx> Interp<'tcx> {
     fn eval_operand(&self, st: &State<'tcx>, op: &Operand<'tcx>) -> Val {
         match op {
             Operand::Copy(p) | Operand::Move(p) => match self.read_place(st, p) {
-                Val::Range { id, w, .. } => {
-                    let (lo, hi) = st.ranges[id as usize];
-                    if lo == hi {
-                        Val::Int { signed: false, bits: from_const(lo, w as usize) }
-                    } else {
-                        Val::Range { id, lo, hi, w }
+                Val::Range { id, w, mul, add, .. } => {
+                    let (rlo, rhi) = st.ranges[id as usize];
+                    let lo = mul.checked_mul(rlo).and_then(|x| x.checked_add(add));
+                    let hi = mul.checked_mul(rhi).and_then(|x| x.checked_add(add));
+                    match (lo, hi) {
+                        (Some(lo), Some(hi)) if hi <= mask(w as usize) => {
+                            if lo == hi {
+                                Val::Int { signed: false, bits: from_const(lo, w as usize) }
+                            } else {
+                                Val::Range { id, lo, hi, w, mul, add }
+                            }
+                        }
+                        // the linear form can wrap for part of the interval: not expressible
+                        _ => Val::Int { signed: false, bits: top_bits(w as usize) },
                     }
                 }
                 v => v,
@@ -1127,6 +1139,57 @@ impl<'tcx> Interp<'tcx> {
         }
     }
 
+    /// `index * c`, `index + c` on an interval-valued input stay linear forms of it; the overflow flag of the
+    /// checked variants becomes a predicate on the input, so the assert that follows splits the interval
+    fn range_arith(&self, st: &mut State<'tcx>, op: BinOp, l: &Val, r: &Val, lty: Ty<'tcx>) -> Option<Val> {
+        let (w, signed) = int_width(lty)?;
+        if signed {
+            return None;
+        }
+        let is_mul = matches!(op, BinOp::Mul | BinOp::MulWithOverflow);
+        let is_add = matches!(op, BinOp::Add | BinOp::AddWithOverflow);
+        if !is_mul && !is_add {
+            return None;
+        }
+        let with_ovf = matches!(op, BinOp::MulWithOverflow | BinOp::AddWithOverflow);
+        let (rg, k) = match (l, r) {
+            (Val::Range { .. }, Val::Int { bits, .. }) => (l, const_of(bits)?),
+            (Val::Int { bits, .. }, Val::Range { .. }) => (r, const_of(bits)?),
+            _ => return None,
+        };
+        let Val::Range { id, mul, add, .. } = rg else { return None };
+        let (nmul, nadd) = if is_mul { (mul.checked_mul(k)?, add.checked_mul(k)?) } else { (*mul, add.checked_add(k)?) };
+        if nmul == 0 {
+            return None;
+        }
+        let (rlo, rhi) = st.ranges[*id as usize];
+        let m = mask(w);
+        let vlo = nmul.checked_mul(rlo).and_then(|x| x.checked_add(nadd));
+        let vhi = nmul.checked_mul(rhi).and_then(|x| x.checked_add(nadd));
+        let fits_lo = matches!(vlo, Some(v) if v <= m);
+        let fits_hi = matches!(vhi, Some(v) if v <= m);
+        let value = Val::Range { id: *id, lo: vlo.unwrap_or(0), hi: vhi.unwrap_or(u128::MAX), w: w as u16, mul: nmul, add: nadd };
+        if fits_lo && fits_hi {
+            return Some(if with_ovf { Val::Struct(vec![value, bool_val(Bit::Z)]) } else { value });
+        }
+        if !with_ovf {
+            return None; // wrapping arithmetic that can wrap: not linear
+        }
+        if !fits_lo {
+            return Some(Val::Struct(vec![Val::Int { signed: false, bits: top_bits(w) }, bool_val(Bit::O)]));
+        }
+        // overflow iff nmul*r + nadd > m  iff  !(r < t) with t = floor((m - nadd)/nmul) + 1
+        if nadd > m {
+            return None;
+        }
+        let t = (m - nadd) / nmul + 1;
+        let sym = Self::sym(st, &format!("pred:r{}<{}", id, t));
+        if !st.preds.iter().any(|p| p.0 == sym) {
+            st.preds.push((sym, *id, t));
+        }
+        Some(Val::Struct(vec![value, bool_val(Bit::S(sym, 0, true))]))
+    }
+
     /// little-endian reinterpretation between integers and byte arrays (what to_le_bytes / from_le_bytes
     /// compile to on this target), and between integers of one width
     fn transmute(&self, v: &Val, to: Ty<'tcx>) -> Val {
@@ -1200,6 +1263,9 @@ impl<'tcx> Interp<'tcx> {
                 let l = self.eval_operand(st, &ops.0);
                 let r = self.eval_operand(st, &ops.1);
                 let lty = self.mono(inst, ops.0.ty(&body.local_decls, self.tcx));
+                if let Some(v) = self.range_arith(st, *op, &l, &r, lty) {
+                    return v;
+                }
                 let res = self.binop(*op, &l, &r, lty);
                 // an interval compared with a constant it straddles: name the predicate so that the branch
                 // consuming it can split the interval exactly
@@ -1209,16 +1275,26 @@ impl<'tcx> Interp<'tcx> {
                             Val::Int { bits, .. } => const_of(bits),
                             _ => None,
                         };
-                        // normalise to "range < c", possibly negated
+                        // normalise "mul*r + add < c" to "r < t", possibly negated
+                        let thr = |v: &Val, c: u128| -> Option<(u32, u128)> {
+                            if let Val::Range { id, mul, add, .. } = v {
+                                if *mul == 0 {
+                                    return None;
+                                }
+                                let t = if c <= *add { 0 } else { (c - *add + *mul - 1) / *mul };
+                                return Some((*id, t));
+                            }
+                            None
+                        };
                         let form: Option<(u32, u128, bool)> = match (&l, &r, op) {
-                            (Val::Range { id, .. }, k, BinOp::Lt) => cst(k).map(|c| (*id, c, false)),
-                            (Val::Range { id, .. }, k, BinOp::Le) => cst(k).and_then(|c| c.checked_add(1)).map(|c| (*id, c, false)),
-                            (Val::Range { id, .. }, k, BinOp::Gt) => cst(k).and_then(|c| c.checked_add(1)).map(|c| (*id, c, true)),
-                            (Val::Range { id, .. }, k, BinOp::Ge) => cst(k).map(|c| (*id, c, true)),
-                            (k, Val::Range { id, .. }, BinOp::Lt) => cst(k).and_then(|c| c.checked_add(1)).map(|c| (*id, c, true)),
-                            (k, Val::Range { id, .. }, BinOp::Le) => cst(k).map(|c| (*id, c, true)),
-                            (k, Val::Range { id, .. }, BinOp::Gt) => cst(k).map(|c| (*id, c, false)),
-                            (k, Val::Range { id, .. }, BinOp::Ge) => cst(k).and_then(|c| c.checked_add(1)).map(|c| (*id, c, false)),
+                            (x @ Val::Range { .. }, k, BinOp::Lt) => cst(k).and_then(|c| thr(x, c)).map(|(i, t)| (i, t, false)),
+                            (x @ Val::Range { .. }, k, BinOp::Le) => cst(k).and_then(|c| c.checked_add(1)).and_then(|c| thr(x, c)).map(|(i, t)| (i, t, false)),
+                            (x @ Val::Range { .. }, k, BinOp::Gt) => cst(k).and_then(|c| c.checked_add(1)).and_then(|c| thr(x, c)).map(|(i, t)| (i, t, true)),
+                            (x @ Val::Range { .. }, k, BinOp::Ge) => cst(k).and_then(|c| thr(x, c)).map(|(i, t)| (i, t, true)),
+                            (k, x @ Val::Range { .. }, BinOp::Lt) => cst(k).and_then(|c| c.checked_add(1)).and_then(|c| thr(x, c)).map(|(i, t)| (i, t, true)),
+                            (k, x @ Val::Range { .. }, BinOp::Le) => cst(k).and_then(|c| thr(x, c)).map(|(i, t)| (i, t, true)),
+                            (k, x @ Val::Range { .. }, BinOp::Gt) => cst(k).and_then(|c| thr(x, c)).map(|(i, t)| (i, t, false)),
+                            (k, x @ Val::Range { .. }, BinOp::Ge) => cst(k).and_then(|c| c.checked_add(1)).and_then(|c| thr(x, c)).map(|(i, t)| (i, t, false)),
                             _ => None,
                         };
                         if let Some((rid, c, neg)) = form {
@@ -1495,7 +1571,11 @@ impl<'tcx> Interp<'tcx> {
             (Val::Ref(p, q), Val::Ref(r, s)) if p == r && q == s => a.clone(),
             (Val::Str(p), Val::Str(q)) if p == q => a.clone(),
             (Val::Opaque(p), Val::Opaque(q)) if p == q => a.clone(),
-            (Val::Range { id, lo, hi, w }, Val::Range { id: i2, lo: l2, hi: h2, w: w2 }) if id == i2 && lo == l2 && hi == h2 && w == w2 => a.clone(),
+            (Val::Range { id, lo, hi, w, mul, add }, Val::Range { id: i2, lo: l2, hi: h2, w: w2, mul: m2, add: a2 })
+                if id == i2 && lo == l2 && hi == h2 && w == w2 && mul == m2 && add == a2 =>
+            {
+                a.clone()
+            }
             _ => Val::Top,
         }
     }
